@@ -299,7 +299,7 @@ func visitInstr(fr *frame, instr ssa.Instruction) continuation {
 			lt, ct := mkSExtTo64(toTerm(lenV), true), mkSExtTo64(toTerm(capV), true)
 			bad := mkOr(mkCmp(OpSlt, lt, mkConst(64, 0)), mkCmp(OpSlt, ct, lt))
 			theEx.panicIf(bad, "makeslice: len out of range")
-			theEx.allocCheck(ct)
+			theEx.allocCheck(ct, isSym(lenV))
 			n = theEx.concretize(lt, 0, theEx.allocLimit, "make-len")
 			// a symbolic capacity is not enumerated: spare capacity of a fresh
 			// slice is unobservable except through cap(); use len.
@@ -328,7 +328,7 @@ func visitInstr(fr *frame, instr ssa.Instruction) continuation {
 		if instr.Reserve != nil {
 			rv := fr.get(instr.Reserve)
 			if s, ok := rv.(*Sym); ok {
-				theEx.allocCheck(mkSExtTo64(s.t, true))
+				theEx.allocCheck(mkSExtTo64(s.t, true), false)
 			} else if n := asInt64(rv); n > allocViolation {
 				theEx.allocBomb(n)
 			}
